@@ -32,7 +32,12 @@ def ambiguous_pair(rng):
     """two distinct (addr, id) that collide under a key built by CONCATENATING text or truncated forms of address and id
     (10.0.0.1 + 2561 = 10.0.0.12 + 561; 2001:db8::1 + 2345 = 2001:db8::12 + 345), or that differ only where a shortened key
     would not look (first octet, upper / lower half of an IPv6 address, high / low byte of the id)"""
-    fam = rng.randrange(6)
+    fam = rng.randrange(7)
+    if fam == 6:      # a 4-byte exporter whose address is a PREFIX (or the tail) of a 16-byte exporter's address, same id
+        a = bytes(rng.randrange(1, 255) for _ in range(4))
+        i = rng.randrange(256, 65536)
+        other = a + bytes(rng.randrange(256) for _ in range(12)) if rng.random() < 0.7 else bytes(rng.randrange(256) for _ in range(12)) + a
+        return (a, i), (other, i)
     if fam in (0, 1):
         while True:
             d, x = rng.randrange(1, 26), rng.randrange(0, 10)
@@ -103,7 +108,15 @@ class P(FlowFidelity):
                         if g.min_rec_len(t2) > 4:
                             t, o = t2, o2
                     known[(a, tid)] = t; kinds[(a, tid)] = o
-                    if tsets and tsets[-1][0] == len(sets) - 1 and tsets[-1][1] == g.tpl_set_id(o) and rng.random() < 0.6:
+                    if self.proto == "ipfix" and rng.random() < 0.12:
+                        # a template set that holds nothing but a field-less record carrying the SET id (what RFC 7011 8.1 calls "all
+                        # templates withdrawal"; this collector has no such notion: the four octets are padding), then the real set
+                        sid = g.tpl_set_id(o)
+                        sets.append(g.enc_set(sid, struct.pack(">HH", sid, 0)))
+                        abstract.append(("raw", sid, b""))
+                    if False:
+                        pass
+                    elif tsets and tsets[-1][0] == len(sets) - 1 and tsets[-1][1] == g.tpl_set_id(o) and rng.random() < 0.6:
                         # SEVERAL template records in one set (the later ones often need no more specifiers than the earlier ones)
                         tsets[-1][2].append(g.enc_tpl(t, o)); abstract[-1][1].append((t, o))
                         sets[-1] = g.enc_set(tsets[-1][1], b"".join(tsets[-1][2]))
